@@ -324,6 +324,9 @@ func (p *parser) parseTypeAssertion(left Node) Node {
 	if left.Type() != ANY_TYPE {
 		p.appendErrorForToken("value of type assertion must be of type any, not "+left.Type().String(), tok)
 	}
+	if t == nil {
+		return nil // previous error: invalid type
+	}
 	return &TypeAssertion{T: fixedType(t), token: tok, Left: left}
 }
 
